@@ -115,8 +115,10 @@ class Env:
         return d
 
     # ---- events
+    _frozen = None
+
     def now(self):
-        return self.usim.time.now
+        return self._frozen if self._frozen is not None else self.usim.time.now
 
     def emit(self, ev):
         if not self.finished:
@@ -663,6 +665,13 @@ def run_scenario(sc, budget=4000, wall=10, probes=None):
         loopmod.Loop.schedule = orig_sched
         wq.pop = orig_pop
     if probes is not None:
+        if err is None and env.loop_started:
+            # the last time step ended without the loop asking for another one: check it like every other step
+            env._frozen = info['last_time']
+            try:
+                env.probe('step_end', env.now(), [(pid, w, a) for pid, (w, a) in env.waiting.items() if env.eval_w(w)])
+            finally:
+                env._frozen = None
         probes.append(('run_end', tcode(info['last_time']), err))
     env.finished = True
     trace = env.trace + [[tcode(info['last_time'])] + final, [tcode(info['last_time'])] + env.digest()]
